@@ -20,13 +20,13 @@ RULE = ("world kind in {SpaceWorld, DiscreteWorld, LineWorld, GridWorld}, extent
         "signs); integers in grid worlds, dyadic k/8 in continuous worlds; non-trivial = >=2 agents in a non-cubic world "
         "and >=1 move crossing an edge; distinct = (kind, extents class, wrap, sequence of op kinds with accept/reject "
         "and edge-crossing flags)"
-        "; also: worlds that are not model.environment, wrap_env reassigned in mid-history, coordinates left to their documented defaults, model lifecycle ops, integer moves of 2**31..2**64 in grid worlds repeated on one axis, agents carrying own components incl. a PositionComponent subclass, agents that are environments themselves, stretches of the history issued from inside a running timestep")
+        "; also: worlds that are not model.environment, wrap_env reassigned in mid-history, coordinates left to their documented defaults, model lifecycle ops, integer moves of 2**31..2**64 in grid worlds repeated on one axis, agents carrying own components incl. a PositionComponent subclass, agents that are environments themselves, stretches of the history issued from inside a running timestep, placements / removals spelled addAgent / removeAgent")
 COMPONENTS = {"real": ["ECAgent.Environments.SpaceWorld.add_agent / remove_agent / move / move_to", "DiscreteWorld / LineWorld / "
                        "GridWorld constructors", "PositionComponent"],
               "stub": ["agents are plain ECAgent agents created by the harness"]}
 PROBES = ["multi_lap_wrap", "negative_wrap", "clamp_both_sides_one_move", "placement_on_hi", "zero_extent_axis",
           "reject.oob", "reject.move_to_oob", "reject.no_position", "move_to_accepted", "continuous_world", "grid_world", "model_lifecycle_op", "wrap_mode_switched", "defaults_used_for_omitted_coordinates", "huge_integer_move_in_grid",
-          "agent_with_position_subclass_component", "agent_is_an_environment", "ops_from_inside_a_timestep"]
+          "agent_with_position_subclass_component", "agent_is_an_environment", "ops_from_inside_a_timestep", "deprecated_camelcase_spelling"]
 TECHNIQUE = "deterministic simulation: seeded placement/move histories with injected rejected operations vs an exact (dyadic) arithmetic reference, containment invariant after every op"
 LEVEL_TEXT = ("Seeded search over world configurations and move histories; after every operation every resident agent's "
               "coordinates must equal the exact reference (modular in wrapping worlds, saturating otherwise) and lie inside "
@@ -81,6 +81,9 @@ def generate(rng, tier):
                 d = [0, 0, 0]
                 d[ax] = sign * big
                 ops.insert(at + j, {"op": "move", "k": k, "d": d, "sparse": rng.random() < 0.3, "huge": True})
+    for o_ in ops:        # the deprecated camelCase spellings (addAgent / removeAgent) are still public API: some calls use them
+        if o_.get("op") in ("add", "remove") and rng.random() < 0.08:
+            o_["camel"] = True
     if rng.random() < 0.25 and len(ops) >= 2:
         # a stretch of the history is issued from inside a running timestep (by a System, as far as the package can tell)
         i_ = rng.randint(0, len(ops) - 1)
@@ -155,9 +158,15 @@ def execute(sc, ctx):
             p = [int(c) for c in op["p"]]
             if k in pos:
                 continue     # duplicate ids are C04's dimension
+            if op.get("camel") and ref.inside([0, 0, 0]):
+                p = [0, 0, 0]            # addAgent(agent): the deprecated spelling places at the documented default
             rp = ref.real(p)
             if ref.inside(p):
-                ctx.expect_ok("add", env.add_agent, a, *sparse(rp, op.get("sparse")))
+                if op.get("camel") and p == [0, 0, 0]:
+                    ctx.probe("deprecated_camelcase_spelling")
+                    ctx.expect_ok("add", env.addAgent, a)
+                else:
+                    ctx.expect_ok("add", env.add_agent, a, *sparse(rp, op.get("sparse")))
                 pos[k] = list(p)
                 got = get_pos(a)
                 ctx.check(got == rp, "placement", f"a{k} placed at {rp} is at {got}")
@@ -248,7 +257,7 @@ def execute(sc, ctx):
         elif kind == "remove":
             if k not in pos:
                 continue
-            ctx.expect_ok("remove", env.remove_agent, a.id)
+            ctx.expect_ok("remove", env.removeAgent if op.get("camel") else env.remove_agent, a.id)
             del pos[k]
             ctx.event("remove", k)
             shape.append(["rm"])
